@@ -343,7 +343,30 @@ def proof_stage(chk, layer, prop):
         rp = write_replay(prop, "theorem:axioms", {"unexpected_axioms": unexpected})
         chk.violation(rp, True)
         ok = False
+    if ok and chk.tier == "thorough":
+        ok = coqchk_property(chk, layer, prop) and ok
+        chk.cov["checker_cmd"] += " && coqchk -silent -o VV.%s.%s" % (layer.upper(), prop)
     return ok
+
+
+def coqchk_property(chk, layer, prop, timeout=1500):
+    """Thorough tier: re-check the compiled property module and everything it depends on with the independent
+    checker and compare the axiom list it prints with the allow-list."""
+    rc, out, dt = sh(["timeout", str(timeout), "coqchk", "-silent", "-o"] + q_flags(layer) + ["%s.%s" % (logical(layer), prop)],
+                     cwd=layer_dir(layer), timeout=timeout + 60)
+    m = re.search(r"\* Axioms:(.*?)\n\s*\n", out, flags=re.S)
+    axioms_txt = (m.group(1).strip() if m else "?")
+    names = [] if axioms_txt == "<none>" else re.findall(r"^\s*([\w.']+)", axioms_txt, flags=re.M)
+    unexpected = [a for a in names if a.split(".")[-1] not in {x.split(".")[-1] for x in AXIOM_ALLOW}]
+    chk.cov["coqchk"] = {"exit": rc, "axioms": names if names else "<none>", "seconds": round(dt, 1),
+                         "type_in_type": "<none>" if "type-in-type: <none>" in out else "?",
+                         "unsafe_fixpoints": "<none>" if "unsafe (co)fixpoints: <none>" in out else "?",
+                         "positivity_assumed": "<none>" if "positivity is assumed: <none>" in out else "?"}
+    if rc != 0 or unexpected or "?" in (chk.cov["coqchk"]["type_in_type"], chk.cov["coqchk"]["unsafe_fixpoints"], chk.cov["coqchk"]["positivity_assumed"]):
+        rp = write_replay(prop, "theorem:coqchk", {"exit": rc, "unexpected_axioms": unexpected, "log_tail": out[-2000:]})
+        chk.violation(rp, True)
+        return False
+    return True
 
 
 TRUSTED_COMMON = [
